@@ -5,23 +5,29 @@
    Plain operations take the scope's mutex for one step; a child Get that misses
    falls through to the parent in a second step (as the code does); LockData
    holds the mutex until Commit.  Variant "nolock": LockData does not take the
-   mutex (regression model: updates are lost). *)
+   mutex (regression model: updates are lost).
+   Getters run the get-or-create idiom of the services bound to a scope (task manager,
+   environments, wait manager):  Lock ; Get ; if absent create and Set ; Commit.
+   Variant "checkoutside" (regression) reads with a plain Get BEFORE taking the lock and
+   does not look again inside it: two first callers create two instances. *)
 EXTENDS Naturals, Sequences, FiniteSets, TLC
 
 CONSTANTS Incs,        \* threads doing one locked increment each, on scope IncScope
           Setters,     \* threads doing a plain Set of key "k" on scope "C" then a Get through C
+          Getters,     \* threads doing get-or-create of key "svc" on scope IncScope
           IncScope, Variant
 
 Scopes == {"P", "C"}
-Threads == Incs \cup Setters
+Threads == Incs \cup Setters \cup Getters
 VARIABLES data,      \* scope -> (key -> value); absent key = 0 means "not set"
           holder,    \* scope -> thread holding the write lock, or 0
           pc, tmp, got
 vars == <<data, holder, pc, tmp, got>>
 
-Init == /\ data = [s \in Scopes |-> [k \in {"cnt", "k"} |-> IF s = "P" /\ k = "k" THEN 100 ELSE 0]]
+Init == /\ data = [s \in Scopes |-> [k \in {"cnt", "k", "svc"} |-> IF s = "P" /\ k = "k" THEN 100 ELSE 0]]
         /\ holder = [s \in Scopes |-> 0]
-        /\ pc = [t \in Threads |-> IF t \in Incs THEN "lock" ELSE "set"]
+        /\ pc = [t \in Threads |-> IF t \in Incs THEN "lock" ELSE IF t \in Setters THEN "set"
+                                     ELSE IF Variant = "checkoutside" THEN "gcheck" ELSE "glock"]
         /\ tmp = [t \in Threads |-> 0] /\ got = [t \in Threads |-> 0]
 
 Free(s) == holder[s] = 0
@@ -46,13 +52,28 @@ PGet1(t) == /\ pc[t] = "get1" /\ Free("C")
             /\ UNCHANGED <<data, holder, tmp>>
 PGet2(t) == /\ pc[t] = "get2" /\ Free("P") /\ got' = [got EXCEPT ![t] = data["P"]["k"]] /\ pc' = [pc EXCEPT ![t] = "end"]
             /\ UNCHANGED <<data, holder, tmp>>
+\* ---- get-or-create of a service bound to the scope (instance = the creating thread's id)
+GCheck(t) == /\ pc[t] = "gcheck" /\ Free(IncScope)
+             /\ IF data[IncScope]["svc"] # 0 THEN got' = [got EXCEPT ![t] = data[IncScope]["svc"]] /\ pc' = [pc EXCEPT ![t] = "end"]
+                ELSE pc' = [pc EXCEPT ![t] = "glock"] /\ UNCHANGED got
+             /\ UNCHANGED <<data, holder, tmp>>
+GLock(t) == /\ pc[t] = "glock" /\ Free(IncScope) /\ holder' = [holder EXCEPT ![IncScope] = t]
+            /\ pc' = [pc EXCEPT ![t] = "gget"] /\ UNCHANGED <<data, tmp, got>>
+GGet(t) == /\ pc[t] = "gget"
+           /\ IF Variant # "checkoutside" /\ data[IncScope]["svc"] # 0
+              THEN got' = [got EXCEPT ![t] = data[IncScope]["svc"]] /\ UNCHANGED data
+              ELSE data' = [data EXCEPT ![IncScope]["svc"] = t] /\ got' = [got EXCEPT ![t] = t]
+           /\ pc' = [pc EXCEPT ![t] = "gcommit"] /\ UNCHANGED <<holder, tmp>>
+GCommit(t) == /\ pc[t] = "gcommit" /\ holder' = [holder EXCEPT ![IncScope] = 0] /\ pc' = [pc EXCEPT ![t] = "end"]
+              /\ UNCHANGED <<data, tmp, got>>
 AllEnd == \A t \in Threads : pc[t] = "end"
-Next == (\E t \in Threads : Lock(t) \/ LGet(t) \/ LSet(t) \/ Commit(t) \/ PSet(t) \/ PGet1(t) \/ PGet2(t)) \/ (AllEnd /\ UNCHANGED vars)
+Next == (\E t \in Threads : GCheck(t) \/ GLock(t) \/ GGet(t) \/ GCommit(t) \/ Lock(t) \/ LGet(t) \/ LSet(t) \/ Commit(t) \/ PSet(t) \/ PGet1(t) \/ PGet2(t)) \/ (AllEnd /\ UNCHANGED vars)
 Spec == Init /\ [][Next]_vars /\ WF_vars(Next)
 
 NoLostUpdate == AllEnd => data[IncScope]["cnt"] = Cardinality(Incs)
 OneHolder == \A t1, t2 \in Incs : (t1 # t2 /\ pc[t1] \in {"lget", "lset", "commit"} /\ pc[t2] \in {"lget", "lset", "commit"}) => Variant = "nolock"
 ChildSetLeavesParent == data["P"]["k"] = 100
 ChildOverlays == \A t \in Setters : pc[t] = "end" => got[t] \in { 10 + x : x \in Setters }
+OneInstance == \A t1, t2 \in Getters : (pc[t1] = "end" /\ pc[t2] = "end") => got[t1] = got[t2]
 Terminates == <>AllEnd
 =============================================================================
